@@ -5,7 +5,7 @@
 (*   cmp    the complete comparison matrix of a universe of real rules, and the   *)
 (*          matrix of structural identity                                          *)
 (*   sort   the results of sorting every permutation of a list, and re-sorting    *)
-EXTENDS Rules, Json, IOUtils
+EXTENDS Rules, StrOrder, Json, IOUtils
 
 Trace == ndJsonDeserialize(IOEnv.VERIF_TRACE)
 VARIABLES l, ev
@@ -28,5 +28,14 @@ C11Cmp == ev.ev = "cmp" =>
 C11Sort == ev.ev = "sort" =>
     /\ (\A i \in DOMAIN ev.results : ev.results[i] = ev.results[1]) \/ Rep("C11", "sorting depends on the order in which the rules are supplied", ev.results)
     /\ (\A i \in DOMAIN ev.resorted : ev.resorted[i] = ev.results[i]) \/ Rep("C11", "sorting is not idempotent", ev.resorted)
+\* strcmp: the complete sign matrix of the real comparison of rules that differ only in one string,
+\* for every string of the StrOrder universe: the order axioms convict, the model's Cmp is compared (DRIFT)
+StrDiffs == {<<i, j>> \in (DOMAIN ev.m) \X (DOMAIN ev.m) : ev.m[i][j] # Cmp(ev.strs[i], ev.strs[j])}
+C11Str == ev.ev = "strcmp" =>
+    /\ (BadAnti(ev.m) = {}  \/ Rep("C11", "comparison of strings is not antisymmetric", {<<ev.strs[p[1]], ev.strs[p[2]]>> : p \in BadAnti(ev.m)}))
+    /\ (BadTrans(ev.m) = {} \/ Rep("C11", "comparison of strings is not transitive", {<<ev.strs[p[1]], ev.strs[p[2]], ev.strs[p[3]]>> : p \in BadTrans(ev.m)}))
+    /\ ({p \in (DOMAIN ev.m) \X (DOMAIN ev.m) : p[1] < p[2] /\ ev.m[p[1]][p[2]] = 0} = {}
+          \/ Rep("C11", "two distinct strings compare equal", {<<ev.strs[p[1]], ev.strs[p[2]]>> : p \in {x \in (DOMAIN ev.m) \X (DOMAIN ev.m) : x[1] < x[2] /\ ev.m[x[1]][x[2]] = 0}}))
+    /\ (StrDiffs = {} \/ PrintT("DRIFT " \o ToJson([id |-> ev.id, what |-> "the model orders strings differently from the real comparison", d |-> {<<ev.strs[p[1]], ev.strs[p[2]]>> : p \in StrDiffs}])))
 Accepted == TLCGet("stats").diameter = Len(Trace) + 1
 =============================================================================
